@@ -74,6 +74,17 @@ def binding_rule(chk, rule, fi, forward_attr):
     payload = ("sym", pos[0])
     ARGS, KWARGS = ("sym", a.vararg.arg), ("sym", a.kwarg.arg)
     ok = True
+    # every named parameter besides the payload and `flavour` shadows an argument the caller means for the payload
+    extra = [x for x in pos[1:]] + [x.arg for x in a.kwonlyargs if x.arg != "flavour"] + [x.arg for x in a.posonlyargs]
+    if extra:
+        chk.bad(
+            rule,
+            name,
+            "%s takes the named parameter(s) %s besides (payload, *args, flavour, **kwargs): a positional or keyword argument of that name meant for the payload is swallowed, the payload runs without it" % (fi.name, extra),
+            node=fi.node,
+            stmt="signature-shadows %s" % ",".join(extra),
+        )
+        ok = False
     for has_args in (True, False):
 
         def decide(it, path, term, has_args=has_args):
